@@ -27,7 +27,8 @@ def chart(x):
     sc.add_state(CompoundState('root', initial='s', on_exit="c = c + 1; send('bye', s=c, hop=9)"), None)
     sc.add_state(BasicState('s'), 'root')
     sc.add_state(FinalState('f'), 'root')
-    sc.add_transition(Transition('s', 'f', event='quit', action="c = c + 1; send('m', s=c, hop=5)"))
+    # (the event sent by this action carries an explicit delay=0)
+    sc.add_transition(Transition('s', 'f', event='quit', action="c = c + 1; send('m', s=c, hop=5, delay=0)"))
     sc.add_transition(Transition(
         's', None, event='go',
         action="c = c + 1; send('m', s=c, hop=0); c = c + 1; send('d', s=c, hop=0, delay=1); "
@@ -119,7 +120,7 @@ class Ref:
             pass                    # a terminated statechart consumes its events in transition-less steps
         elif name == 'quit':
             n.c += 1
-            sends.append(('internal', 'm', n.c, 5, 0))       # action of the transition to the final state
+            sends.append(('internal', 'm', n.c, 5, '0!'))    # action of the transition to the final state
             n.c += 1
             sends.append(('internal', 'bye', n.c, 9, 0))     # exit code of the root, run by the terminating step
             n.final = True
@@ -137,6 +138,8 @@ class Ref:
         for kind, sn, ss, sh, sd in sends:
             if kind != 'internal':
                 continue
+            explicit0 = sd == '0!'
+            sd = 0 if explicit0 else sd
             self.put(n, True, n.now + sd, sn, ss, sh)
             for tgt in list(n.targets):
                 if tgt not in n.targets:
@@ -146,10 +149,10 @@ class Ref:
                     t = self.nodes[tv]
                     self.put(t, False, t.now + sd, sn, ss, sh)
                 elif tk == 'f':
-                    self.calls.append((tv, 'Event', sn, ss, sh, sd if sd else None))
+                    self.calls.append((tv, 'Event', sn, ss, sh, 0 if explicit0 else (sd if sd else None)))
                 else:
                     # detaching callable: logs, and on its first delivery detaches the first other listener
-                    self.calls.append(('g', 'Event', sn, ss, sh, sd if sd else None))
+                    self.calls.append(('g', 'Event', sn, ss, sh, 0 if explicit0 else (sd if sd else None)))
                     if n.g_armed:
                         n.g_armed = False
                         others = [o for o in n.targets if o != tgt]
@@ -261,6 +264,7 @@ class System:
                     errs.append('%s consumed %s(s=%s), expected %s(s=%s)' % (x, got[0], got[1], exp_ev[0], exp_ev[1]))
                 sent = [('internal' if isinstance(e, InternalEvent) else 'meta', e.name, e.data.get('s'),
                          e.data.get('hop'), e.data.get('delay', 0)) for e in step.sent_events]
+                exp_sends = [(a, b, c2, d, 0 if e == '0!' else e) for a, b, c2, d, e in exp_sends]
                 if sent != exp_sends:
                     errs.append('%s: MacroStep.sent_events %s, expected %s' % (x, sent, exp_sends))
         if list(CALLS) != ref.calls:
